@@ -837,6 +837,8 @@ class Interp:
     def obj_getattr(self, o: Obj, name):
         if name in o.cur:
             return o.cur[name]
+        if name == "__dict__":
+            return ObjDict(o)
         if name == "__class__":
             self.split_kinds_each(o)
             return ClassVal(self.classes[next(iter(o.kinds))])
@@ -2047,6 +2049,62 @@ class Interp:
 
 _UNREAD = object()
 _MUTATORS = {"append", "pop", "insert", "extend", "sort", "add", "remove", "clear", "update", "setdefault", "discard", "reverse"}
+
+
+class ObjDict:
+    """`obj.__dict__` of a modelled object: a view of its instance attributes.  Only for attributes the
+    lazily initialised heap does not track (scratch / cache attributes); reads of an attribute never
+    written are 'absent'."""
+
+    def __init__(self, o: Obj):
+        self.o = o
+
+    def _absent(self, I, name):
+        o = self.o
+        if not isinstance(name, str):
+            raise OutOfSubset("__dict__ with a non-literal key")
+        if name in o.cur:
+            return False
+        if o.lazy and I.heap is not None and I.heap.tracks(o, name):
+            raise OutOfSubset(f"__dict__ access to the modelled field {name}")
+        if o.lazy:
+            # an input object: an earlier call may have left the attribute there
+            raise OutOfSubset(f"__dict__ lookup of '{name}' on an input object (its earlier state is not modelled)")
+        return True
+
+    def method(self, I, name, args, kw):
+        if name == "get":
+            key = args[0]
+            default = args[1] if len(args) > 1 else None
+            return default if self._absent(I, key) else self.o.cur[key]
+        if name == "pop":
+            key = args[0]
+            if self._absent(I, key):
+                if len(args) > 1:
+                    return args[1]
+                I.raise_("KeyError", repr(key), implicit=True, site="__dict__.pop")
+            v = self.o.cur.pop(key)
+            I.ps.writes.append((self.o, key, v, _UNREAD))
+            return v
+        if name == "setdefault":
+            key = args[0]
+            if self._absent(I, key):
+                I.setattr(self.o, key, args[1] if len(args) > 1 else None)
+            return self.o.cur[key]
+        raise OutOfSubset(f"__dict__.{name}")
+
+    def getitem(self, I, key):
+        if self._absent(I, key):
+            I.raise_("KeyError", repr(key), implicit=True, site="__dict__[]")
+        return self.o.cur[key]
+
+    def setitem(self, I, key, v):
+        if not isinstance(key, str):
+            raise OutOfSubset("__dict__ with a non-literal key")
+        I.setattr(self.o, key, v)
+
+    def contains(self, I, key):
+        return not self._absent(I, key)
 
 
 class ClassVal:
